@@ -93,8 +93,9 @@ func Glob(pattern, dst string, ignoreMatchers bool) (files map[string]string, er
 	}
 
 	for _, src := range matches {
-		// only include files
-		if f, err := os.Stat(src); err == nil && f.Mode().IsDir() {
+		// only include files; a symbolic link to a directory is a link, not a
+		// directory (Stat would follow it and the link would be dropped)
+		if f, err := os.Lstat(src); err == nil && f.Mode().IsDir() {
 			continue
 		}
 
